@@ -25,10 +25,11 @@ def handleMd (args : List String) : Option String :=
     match hd with
     | op :: nn :: f1 :: f2 :: f3 :: tv :: f4 :: f5 :: f6 :: shape =>
       let b := fun (s : String) => s == "1"
-      let c : Module.Cfg := {
+      let cfg : Module.Cfg := {
         nn := parseNat nn, fftFma := b f1, ifftFma := b f2, fromBnd50 := b f3,
         toVariant := (match tv with | "1" => .bnd50 | "2" => .bnd63 | _ => .ref),
         mulFma := b f4, addmulFma := b f5, vmpAvx := b f6, fftT := nats ft, ifftT := nats it }
+      let c := cfg.parts
       let sh := shape.map parseNat
       match op, sh, payload with
       | "small", _, [a, bb] => some (joinInts (Module.smallProduct c (ints a) (ints bb)))
